@@ -25,7 +25,14 @@ inductive Shape
   | tuple (fields : List Shape)
   | enum (variants : List Shape)
   | option (inner : Shape)
+  /-- a struct of two whose second field's layout is chosen by the first: a `u32` bit set `bits`, then `a` when
+  `bits ∩ all = bits ∩ legacy`, else `b`. This is what the hand-written `Deserialize for Policies`
+  (`StructVisitor::visit_seq`) requests and its `Serialize` emits; `all`/`legacy` come from `Gen/Policies.lean`. -/
+  | sel (all legacy : Nat) (a b : Shape)
   deriving Repr, Inhabited
+
+/-- `bits.intersection(all) == bits.intersection(legacy)` -/
+def selLegacy (all legacy bits : Nat) : Bool := (bits &&& all) == (bits &&& legacy)
 
 abbrev Bytes := List UInt8
 
@@ -115,6 +122,12 @@ def pcDec : Shape → Bytes → Option (Tree × Bytes)
   | .option s, bs => match bs with
     | b :: r => if b = 0 then some (.none, r) else if b = 1 then (pcDec s r).map (fun (t, r') => (.some t, r')) else none
     | [] => none
+  | .sel al lg a b, bs =>
+    match varintDec 32 bs with
+    | none => none
+    | some (bits, r) =>
+      if selLegacy al lg bits then (pcDec a r).map (fun (x, r') => (.tuple [.u32 bits, x], r'))
+      else (pcDec b r).map (fun (x, r') => (.tuple [.u32 bits, x], r'))
 def pcDecList : List Shape → Bytes → Option (List Tree × Bytes)
   | [], bs => some ([], bs)
   | s :: ss, bs =>
@@ -190,6 +203,12 @@ def bcDec : Shape → Bytes → Option (Tree × Bytes)
   | .option s, bs => match bs with
     | b :: r => if b = 0 then some (.none, r) else if b = 1 then (bcDec s r).map (fun (t, r') => (.some t, r')) else none
     | [] => none
+  | .sel al lg a b, bs =>
+    match leDec 4 bs with
+    | none => none
+    | some (bits, r) =>
+      if selLegacy al lg bits then (bcDec a r).map (fun (x, r') => (.tuple [.u32 bits, x], r'))
+      else (bcDec b r).map (fun (x, r') => (.tuple [.u32 bits, x], r'))
 def bcDecList : List Shape → Bytes → Option (List Tree × Bytes)
   | [], bs => some ([], bs)
   | s :: ss, bs =>
@@ -221,6 +240,8 @@ def HasShape : Shape → Tree → Prop
   | .enum vs, .variant idx p => idx < 2 ^ 32 ∧ VariantShape vs idx p
   | .option _, .none => True
   | .option s, .some t => HasShape s t
+  | .sel al lg a b, .tuple [.u32 bits, x] =>
+    bits < 2 ^ 32 ∧ (if selLegacy al lg bits then HasShape a x else HasShape b x)
   | _, _ => False
 def AllShape : Shape → List Tree → Prop
   | _, [] => True
